@@ -8,22 +8,38 @@ import (
 
 // callSchema handles higher-order library functions whose closure argument is executed under a loop schema.
 func (c *FnCtx) callSchema(st *State, call *ast.CallExpr, key string, argExprs []ast.Expr) ([]*Term, bool) {
+	// a function literal bound once to a local variable (visit := func...) is used like the literal itself
+	litOf := func(e ast.Expr) (*ast.FuncLit, bool) {
+		if lit, ok := ast.Unparen(e).(*ast.FuncLit); ok {
+			return lit, true
+		}
+		if id, ok := ast.Unparen(e).(*ast.Ident); ok {
+			if v, ok := c.info.ObjectOf(id).(*types.Var); ok && !c.isGlobal(v) {
+				if t, ok := st.vars[v]; ok && len(t.Op) > 8 && t.Op[:8] == "closure#" {
+					if cl := c.closures[t.Op]; cl != nil && cl.Lit != nil {
+						return cl.Lit, true
+					}
+				}
+			}
+		}
+		return nil, false
+	}
 	switch key {
 	case "go/ast.Inspect":
-		lit, ok := ast.Unparen(argExprs[1]).(*ast.FuncLit)
+		lit, ok := litOf(argExprs[1])
 		if !ok {
 			c.unsupportedf(call, "ast.Inspect with a non-literal function")
 		}
 		c.inspectSchema(st, call, argExprs[0], lit)
 		return nil, true
 	case "sort.Search":
-		lit, ok := ast.Unparen(argExprs[1]).(*ast.FuncLit)
+		lit, ok := litOf(argExprs[1])
 		if !ok {
 			c.unsupportedf(call, "sort.Search with a non-literal function")
 		}
 		return []*Term{c.searchSchema(st, call, argExprs[0], lit)}, true
 	case "sync.Once.Do":
-		lit, ok := ast.Unparen(argExprs[0]).(*ast.FuncLit)
+		lit, ok := litOf(argExprs[0])
 		if !ok {
 			c.unsupportedf(call, "Once.Do with a non-literal function")
 		}
